@@ -644,6 +644,9 @@ func vLoadProject() (*Project, error) {
 		vBodies[s.name] = s
 		m := &module{label: &label.Label{Kind: "module", Package: s.pkg, Name: "BUILD.dawn"}}
 		deps := append([]string{}, s.deps...)
+		if vBroken[s.name] {
+			deps = append(deps, "//:nosuch")
+		}
 		var sourcePaths, gens []string
 		for _, src := range s.sources {
 			l, err := sourceLabel("//", src)
@@ -694,6 +697,7 @@ func vBuild(target string, opts *RunOptions) (loadErr, buildErr error, crashed b
 	return
 }
 
+var vBroken = map[string]bool{}
 var vKept *Project
 var vKeepProject bool
 
